@@ -220,6 +220,14 @@ mutant("set-b-hl-skips-write-when-unchanged", ["C05"], [("op_bitop.go", """	x :=
 }""")], note="missing write-back of an unchanged value: device sees no write")
 
 
+mutant("dumbmemory-fastpath-wrong-byte-order", ["C10"], [("cpu.go", """func (cpu *CPU) readU16(addr uint16) uint16 {
+	l := cpu.Memory.Get(addr)""", """func (cpu *CPU) readU16(addr uint16) uint16 {
+	if dm, ok := cpu.Memory.(DumbMemory); ok && int(addr)+1 < len(dm) {
+		return toU16(dm[addr+1], dm[addr])
+	}
+	l := cpu.Memory.Get(addr)""")], note="type-specific fast path with swapped bytes: only when the CPU runs directly on a DumbMemory")
+
+
 # ---- C12 -------------------------------------------------------------------
 mutant("dumbmemory-set-unguarded", ["C12"], [("memio.go", """func (dm DumbMemory) Set(addr uint16, value uint8) {
 	if int(addr) >= len(dm) {
